@@ -10,6 +10,7 @@
 package c14
 
 import (
+	"errors"
 	"fmt"
 	"net"
 	"net/http"
@@ -60,10 +61,17 @@ type Case struct {
 	URLHost string `json:"url_host"` // req.URL.Host
 	Path    string `json:"path"`
 	Query   string `json:"query,omitempty"`
-	Req     []HL   `json:"req"`
-	Res     []HL   `json:"res"`
-	Status  int    `json:"status"`
-	Body    int    `json:"body,omitempty"` // response body size (wire only)
+	// ForceQuery: the request-target ends in a bare "?" (Query empty).
+	ForceQuery bool `json:"force_query,omitempty"`
+	// UserInfo: credentials in the authority of the request URL ("user:pw").
+	UserInfo string `json:"userinfo,omitempty"`
+	// UserFail: a modifier of the user group (the stack's inner fifo.Group)
+	// returns an error on the request ("req"), the response ("res") or "both".
+	UserFail string `json:"user_fail,omitempty"`
+	Req      []HL   `json:"req"`
+	Res      []HL   `json:"res"`
+	Status   int    `json:"status"`
+	Body     int    `json:"body,omitempty"` // response body size (wire only)
 }
 
 var fixedHop = []string{
@@ -76,6 +84,24 @@ var fixedHop = []string{
 var managedReq = map[string]bool{
 	"Via": true, "X-Forwarded-For": true, "X-Forwarded-Proto": true,
 	"X-Forwarded-Host": true, "X-Forwarded-Url": true, "Content-Length": true,
+}
+
+// target is the request-target (path and query) exactly as the client sends it.
+func (c Case) target() string {
+	t := c.Path
+	if c.Query != "" || c.ForceQuery {
+		t += "?" + c.Query
+	}
+	return t
+}
+
+// originalURL is the URL the client asked for, as it wrote it.
+func (c Case) originalURL(scheme string) string {
+	u := scheme + "://"
+	if c.UserInfo != "" {
+		u += c.UserInfo + "@"
+	}
+	return u + c.URLHost + c.target()
 }
 
 func canon(n string) string { return textproto.CanonicalMIMEHeaderKey(n) }
@@ -346,9 +372,14 @@ func protoOf(c Case) (string, int, int) {
 
 func newReq(c Case, lines []HL, subst func(string) string) *http.Request {
 	proto, maj, min := protoOf(c)
+	// the URL as a parser hands it over (http.ReadRequest uses ParseRequestURI)
+	u, err := url.ParseRequestURI(c.originalURL(c.Scheme))
+	if err != nil {
+		panic(fmt.Sprintf("case URL %q does not parse: %v", c.originalURL(c.Scheme), err))
+	}
 	req := &http.Request{
 		Method: "GET",
-		URL:    &url.URL{Scheme: c.Scheme, Host: c.URLHost, Path: c.Path, RawQuery: c.Query},
+		URL:    u,
 		Proto:  proto, ProtoMajor: maj, ProtoMinor: min,
 		Header: http.Header{}, Host: c.Host, RemoteAddr: c.Remote, Body: http.NoBody,
 	}
@@ -368,7 +399,21 @@ func runInproc(c Case) kit.Verdict {
 		return nil // outside the domain (replay of a hand-edited file)
 	}
 	var v kit.Verdict
-	stack, _ := httpspec.NewStack(c.Name)
+	stack, inner := httpspec.NewStack(c.Name)
+	userReqFails := c.UserFail == "req" || c.UserFail == "both"
+	userResFails := c.UserFail == "res" || c.UserFail == "both"
+	armed := false // the probe must pass undisturbed
+	if userReqFails {
+		inner.AddRequestModifier(martian.RequestModifierFunc(func(*http.Request) error {
+			if armed {
+				return errors.New("user request modifier failed")
+			}
+			return nil
+		}))
+	}
+	if userResFails {
+		inner.AddResponseModifier(martian.ResponseModifierFunc(func(*http.Response) error { return errors.New("user response modifier failed") }))
+	}
 
 	// learn this instance's pseudonym
 	probe, _ := http.NewRequest("GET", "http://probe.test/", nil)
@@ -400,6 +445,7 @@ func runInproc(c Case) kit.Verdict {
 	}
 	defer remove()
 
+	armed = true
 	rerr := stack.ModifyRequest(req)
 	skip := ctx.SkippingRoundTrip()
 	loopDetected := m.loop && rerr != nil && skip
@@ -414,10 +460,10 @@ func runInproc(c Case) kit.Verdict {
 	if m.clConflict && rerr == nil {
 		v.Addf("C14/framing/content-length-conflict/unflagged", "Content-Length lines %q conflict but ModifyRequest returned nil", m.in["Content-Length"])
 	}
-	if m.teBad && !m.clConflict && !loopDetected && rerr == nil {
+	if m.teBad && !m.clConflict && !loopDetected && !userReqFails && rerr == nil {
 		v.Addf("C14/framing/te-not-chunked/unflagged-by-stack", "Transfer-Encoding lines %q do not end in chunked but ModifyRequest returned nil", m.in["Transfer-Encoding"])
 	}
-	if !m.loop && !m.clConflict && !m.teBad && rerr != nil {
+	if !m.loop && !m.clConflict && !m.teBad && !userReqFails && rerr != nil {
 		v.Addf("C14/stack/clean-request/unexpected-error", "no loop, no framing problem, but ModifyRequest returned %v (Via %q, Content-Length %q, Transfer-Encoding %q)", rerr, m.in["Via"], m.in["Content-Length"], m.in["Transfer-Encoding"])
 	}
 
@@ -432,7 +478,7 @@ func runInproc(c Case) kit.Verdict {
 		} else {
 			checkChain("via", "Via", m.in["Via"], req.Header["Via"], stamp, &v)
 		}
-		checkForwarded(m, req.Header, "", clientIP(c.Remote), c.Scheme, c.Host, (&url.URL{Scheme: c.Scheme, Host: c.URLHost, Path: c.Path, RawQuery: c.Query}).String(), &v)
+		checkForwarded(m, req.Header, "", clientIP(c.Remote), c.Scheme, c.Host, c.originalURL(c.Scheme), &v)
 		// Content-Length: untouched, or reduced to the one common value
 		if cl := m.in["Content-Length"]; len(cl) > 0 && !m.clConflict {
 			got := req.Header["Content-Length"]
@@ -454,7 +500,9 @@ func runInproc(c Case) kit.Verdict {
 			// what martian.Proxy hands to the response modifier after a skipped round trip
 			res := proxyutil.NewResponse(200, nil, req)
 			err := stack.ModifyResponse(res)
-			if res.StatusCode != 400 || err == nil {
+			if userResFails && res.StatusCode != 400 {
+				v.Addf("C14/loop/user-response-modifier-error/not-answered-400", "looping request, user group's response modifier returns an error: response status %d (ModifyResponse error %v), want 400", res.StatusCode, err)
+			} else if res.StatusCode != 400 || err == nil {
 				v.Addf("C14/loop/"+loopShape(m)+"/not-answered-400", "looping request: response status %d, ModifyResponse error %v, want 400 and an error", res.StatusCode, err)
 			}
 		}
@@ -470,10 +518,18 @@ func runInproc(c Case) kit.Verdict {
 		res.Header.Add(l.N, subst(l.V))
 	}
 	err = stack.ModifyResponse(res)
-	if err != nil || res.StatusCode != c.Status {
+	side := "response"
+	if userResFails {
+		// the error is the user modifier's own; the response is still sent on
+		// (martian.Proxy adds a Warning header) and must be a proper hop
+		side = "response-after-user-modifier-error"
+		if res.StatusCode != c.Status {
+			v.Addf("C14/stack/response-after-user-modifier-error/status-changed", "status %d became %d", c.Status, res.StatusCode)
+		}
+	} else if err != nil || res.StatusCode != c.Status {
 		v.Addf("C14/stack/clean-response/unexpected-error", "response to a non-looping request: ModifyResponse returned %v, status %d (was %d)", err, res.StatusCode, c.Status)
 	}
-	checkHeaders("response", rin, res.Header, hopSet(rin), nil, nil, &v)
+	checkHeaders(side, rin, res.Header, hopSet(rin), nil, nil, &v)
 	return v
 }
 
@@ -752,6 +808,23 @@ func genTE(t *rapid.T) []HL {
 	return out
 }
 
+// pathPool: plain paths, escapes Go keeps verbatim in RawPath (encoded slash,
+// unneeded escapes, lower-case hex), ordinary escapes, sub-delims.
+var pathPool = []string{
+	"/", "/a/b", "/p/abc.html", "/files/a%2Fb.txt", "/files/a%2fb.txt", "/q/%41bc", "/q/%7Euser", "/x%2D1/y",
+	"/sp/a%20b", "/u/%C3%A4", "/u/%c3%a4", "/pkg/@scope%2Fname", "/semi;v=1/a,b", "/a//b/./c", "/star/*'()!",
+}
+
+// genTarget draws the request-target and the authority's credentials.
+func genTarget(t *rapid.T, c *Case) {
+	c.Path = rapid.SampledFrom(pathPool).Draw(t, "path")
+	c.Query = rapid.SampledFrom([]string{"", "", "x=1", "a=b&c=d", "q=a%2Fb&r=%41", "k"}).Draw(t, "query")
+	c.ForceQuery = c.Query == "" && rapid.IntRange(0, 3).Draw(t, "force_query") == 0
+	if rapid.IntRange(0, 4).Draw(t, "userinfo") == 0 {
+		c.UserInfo = rapid.SampledFrom([]string{"user:pw", "user", "u%40x:p"}).Draw(t, "userinfo_val")
+	}
+}
+
 func genAddressing(t *rapid.T, c *Case) {
 	c.Name = rapid.SampledFrom([]string{"martian", "martian", "m", "edge-proxy"}).Draw(t, "name")
 	c.Proto = rapid.SampledFrom([]string{"1.1", "1.1", "1.0", "2.0"}).Draw(t, "proto")
@@ -762,8 +835,7 @@ func genAddressing(t *rapid.T, c *Case) {
 	if rapid.IntRange(0, 2).Draw(t, "host_differs") == 0 {
 		c.Host = "virtual.example"
 	}
-	c.Path = rapid.SampledFrom([]string{"/", "/a/b", "/p/abc.html"}).Draw(t, "path")
-	c.Query = rapid.SampledFrom([]string{"", "x=1", "a=b&c=d"}).Draw(t, "query")
+	genTarget(t, c)
 	c.Status = rapid.SampledFrom([]int{200, 204, 301, 404, 500}).Draw(t, "status")
 }
 
@@ -779,6 +851,7 @@ func genCase(t *rapid.T) Case {
 		// a response's own Via / X-Forwarded-For are ordinary end-to-end headers here
 		c.Res = append(c.Res, HL{N: "Via", V: "1.1 upstream-cache"}, HL{N: "X-Forwarded-For", V: "10.9.9.9"})
 	}
+	c.UserFail = rapid.SampledFrom([]string{"", "", "", "", "", "", "res", "res", "req", "both"}).Draw(t, "user_fail")
 	if !valid(c) {
 		t.Fatalf("generator produced a case outside the domain") // cannot happen: pools do not contain managed names
 	}
@@ -859,6 +932,13 @@ func classes(c Case) []string {
 	add(m.teBad, "framing-te-bad")
 	add(len(m.in["Transfer-Encoding"]) > 0 && !m.teBad, "framing-te-ok")
 	add(m.loop && m.clConflict, "loop-and-cl-conflict")
+	if u, err := url.ParseRequestURI(c.originalURL("http")); err == nil {
+		add(u.RawPath != "", "url-raw-path-kept")
+	}
+	add(c.UserFail == "res" || c.UserFail == "both", "user-response-modifier-fails")
+	add(c.UserFail == "req" || c.UserFail == "both", "user-request-modifier-fails")
+	add(c.ForceQuery, "url-bare-question-mark")
+	add(c.UserInfo != "", "url-userinfo")
 	add(strings.HasPrefix(c.Remote, "["), "remote-v6")
 	add(c.Host != c.URLHost, "host-differs-from-url")
 	add(c.Proto != "1.1", "proto-not-1.1")
@@ -884,6 +964,7 @@ var propStack = &kit.Prop[Case]{
 		"xff-multi-line": 0.1, "framing-cl-conflict": 0.1, "framing-te-bad": 0.1, "res-conn-nominates-present-ext": 0.15,
 		"remote-v6": 0.2, "host-differs-from-url": 0.2,
 		"conn-nominates-x-forwarded": 0.1, "conn-nominates-x-forwarded-present": 0.05,
+		"user-response-modifier-fails": 0.15, "user-request-modifier-fails": 0.1, "url-raw-path-kept": 0.25, "url-bare-question-mark": 0.05, "url-userinfo": 0.1,
 	},
 }
 
